@@ -28,6 +28,7 @@ struct Scene<S: MdkStorageProvider> {
     b: MDK<S>, _bk: Keys,
     inviters: Vec<(MDK<MdkMemoryStorage>, Keys, GroupId)>,
     invs: Vec<Inv>,
+    kick: Option<Event>,      // the commit by which the inviter of group 2 removed B (built together with invitation 7)
 }
 
 impl<S: MdkStorageProvider> Scene<S> {
@@ -71,9 +72,27 @@ impl<S: MdkStorageProvider> Scene<S> {
             inviters.push((a, ak, gid));
         }
         // order: index 0 = group1 valid, 1..=5 = malformed variants of group 1, 6 = group2 valid
-        Scene { b, _bk: bk, inviters, invs }
+        Scene { b, _bk: bk, inviters, invs, kick: None }
     }
     fn gid(&self, g: u64) -> GroupId { self.inviters[(g - 1) as usize].2.clone() }
+    /// invitation 7 (built on first use): the inviter of group 2 removes B, renames the group and re-adds B with a fresh key
+    /// package: an invitation to the same group at a LATER epoch.  The removal commit is kept as `kick`.
+    fn build_reinvite(&mut self) {
+        if self.invs.len() != 7 { return; }
+        let fresh_kp = kp(&self.b, &self._bk);
+        let (a, _ak, gid) = &self.inviters[1];
+        let bpk = self._bk.public_key();
+        let mut kick = None;
+        let built = (|| -> Option<UnsignedEvent> {
+            let rm = a.remove_members(gid, &[bpk]).ok()?; a.merge_pending_commit(gid).ok()?;
+            kick = Some(rm.evolution_event);
+            a.update_group_data(gid, mdk_core::groups::NostrGroupDataUpdate::new().name("g2-renamed".to_string())).ok()?; a.merge_pending_commit(gid).ok()?;
+            let r = a.add_members(gid, &[fresh_kp]).ok()?; a.merge_pending_commit(gid).ok()?;
+            r.welcome_rumors?.first().cloned()
+        })();
+        self.kick = kick;
+        if let Some(rumor) = built { self.invs.push(Inv { rumor, shape: true, dec: true, kp: 3, gid: 2, id: Some(27) }); }
+    }
     fn fingerprint(&self, res: &str) -> String {
         let mut parts = vec![format!("res={res}")];
         for g in 1..=2u64 {
@@ -99,7 +118,8 @@ impl<S: MdkStorageProvider> Scene<S> {
         match t[1] {
             "PROCESS" => {
                 let (i, wr) = (n(2) as usize, n(3));
-                if i == 7 && self.invs.len() == 7 {
+                if i == 7 && self.invs.len() == 7 { self.build_reinvite(); }
+                if false {
                     // invitation 7 (built on first use): the inviter of group 2 removes B and re-adds it with a fresh key package;
                     // B never sees the removal, so this is an invitation to a group B may be active in, at a LATER epoch
                     let fresh_kp = kp(&self.b, &self._bk);
@@ -127,6 +147,14 @@ impl<S: MdkStorageProvider> Scene<S> {
                     Some(w) => match catch_unwind(AssertUnwindSafe(|| if t[1] == "ACCEPT" { self.b.accept_welcome(&w) } else { self.b.decline_welcome(&w) })) { Ok(Ok(())) => "ok", Ok(Err(_)) => "err", Err(_) => "PANIC" },
                 };
                 (t.join(" "), self.fingerprint(res))
+            }
+            "KICK" => {
+                // B is offered the commit that removed it from group 2
+                self.build_reinvite();
+                let Some(ev) = self.kick.clone() else { return (format!("{} | applied=0", t.join(" ")), self.fingerprint("err")) };
+                let r = catch_unwind(AssertUnwindSafe(|| self.b.process_message(&ev)));
+                let applied = matches!(r, Ok(Ok(mdk_core::messages::MessageProcessingResult::Commit { .. })));
+                (format!("{} | applied={}", t.join(" "), applied as u8), self.fingerprint(if applied { "ok" } else { "err" }))
             }
             "MSG" => {
                 let (g, m) = (n(2), n(3));
@@ -165,6 +193,7 @@ fn run_all<S: MdkStorageProvider, F: Fn() -> S>(run: &mut Run, mk: F, backend: &
                 cur.push(if k < 50 { format!("WL PROCESS {inv} {}", g.below(3) + if inv == 6 { 3 } else if inv == 7 { 6 } else { 0 }) }
                     else if k < 68 { format!("WL ACCEPT {}", *g.pick(&[0u64, 0, 6, 4, 6])) }
                     else if k < 82 { format!("WL DECLINE {}", *g.pick(&[0u64, 6, 0, 5, 7])) }
+                    else if k < 88 { "WL KICK".to_string() }
                     else { format!("WL MSG {} {}", g.below(2) + 1, g.below(50)) });
             }
             seqs.push(cur);
@@ -196,6 +225,20 @@ fn run_all<S: MdkStorageProvider, F: Fn() -> S>(run: &mut Run, mk: F, backend: &
                 // accepting joins and leaves the key-rotation obligation pending
                 if t[1] == "ACCEPT" && fp.starts_with("res=ok") && a.starts_with(&format!("g{g}=0/")) && !was_active && !a.ends_with("/1/1") {
                     run.oracle_fail("C16", "", format!("[{backend}] accepted invitation but group {g} is not (joined, self-update required): {a}"), hist.join(" || "));
+                }
+            }
+            // C08: after a successful accept the stored record of the joined group mirrors the MLS state joined (epoch, name)
+            if t[1] == "ACCEPT" && fp.starts_with("res=ok") {
+                for g in 1..=2u64 {
+                    let gid = sc.gid(g);
+                    if let (Ok(Some(rec)), Ok(Some(mls))) = (sc.b.get_group(&gid), sc.b.load_mls_group(&gid)) {
+                        if rec.state == GroupState::Active && mls.is_active() {
+                            let name = mdk_core::extension::NostrGroupDataExtension::from_group(&mls).map(|x| x.name).unwrap_or_default();
+                            if rec.epoch != mls.epoch().as_u64() || rec.name != name {
+                                run.oracle_fail("C08", "", format!("[{backend}] after `{l}` the record of group {g} says epoch {} name {:?} while the joined MLS state is epoch {} name {:?}", rec.epoch, rec.name, mls.epoch().as_u64(), name), hist.join(" || "));
+                            }
+                        }
+                    }
                 }
             }
             // processing the same invitation again returns the same stored welcome and creates nothing new
